@@ -158,9 +158,9 @@ func parentTag(els []htmlcmp.El, i int) string {
 
 var c02Values = map[string]any{
 	"word": "word", "amp": "a & b", "lt": "1 < 2", "tag": "<b>x</b>", "dq": `say "hi"`, "sq": "it's", "ent": "&amp;",
-	"lead": "  lead", "trail": "trail  ", "nbsp": "\u00a0n\u00a0", "int": 42, "neg": -7, "true": true, "float": 2.5, "entlt": "&lt;i&gt;", "semi": "a;b&c",
+	"lead": "  lead", "trail": "trail  ", "nbsp": "\u00a0n\u00a0", "nilv": nil, "int": 42, "neg": -7, "true": true, "float": 2.5, "entlt": "&lt;i&gt;", "semi": "a;b&c",
 }
-var c02ValueNames = []string{"word", "amp", "lt", "tag", "dq", "sq", "ent", "lead", "trail", "nbsp", "int", "neg", "true", "float", "entlt", "semi"}
+var c02ValueNames = []string{"word", "amp", "lt", "tag", "dq", "sq", "ent", "lead", "trail", "nbsp", "nilv", "int", "neg", "true", "float", "entlt", "semi"}
 
 func (c *c02Case) Run(ctx *core.Ctx) {
 	switch c.Part {
@@ -210,6 +210,9 @@ func (c *c02Case) Run(ctx *core.Ctx) {
 			return
 		}
 		sv := fmt.Sprint(v)
+		if v == nil {
+			sv = "" // nothing has no string form
+		}
 		nodes := htmlcmp.Parse(out)
 		s := htmlcmp.ByID(nodes, "s")
 		if s == nil {
@@ -228,6 +231,9 @@ func (c *c02Case) Run(ctx *core.Ctx) {
 				ctx.Violation("interp", c.Part, c02ValClass(sv)+"/"+c02ValClass(c.L+c.R), fmt.Sprintf("src %q v=%q: title %q want %q (out %q)", c.Src, sv, g, want, out))
 			}
 		case "vhtml":
+			if v == nil && (s.FirstChild != nil) {
+				ctx.Violation("vhtml", "nil-value", "nil", fmt.Sprintf("src %q v=nil: the element has content: %q", c.Src, out))
+			}
 			if !strings.Contains(out, strings.TrimFunc(sv, htmlcmp.IsHTMLSpace)) {
 				ctx.Violation("vhtml", "verbatim", c02ValClass(sv), fmt.Sprintf("src %q v=%q: output %q does not contain the value", c.Src, sv, out))
 			}
